@@ -1,27 +1,56 @@
-(* WIP *)
 (* C15 — Expired or ended sessions leave nothing behind.  Statements only. *)
-From MV Require Import Base.Val Session.Lifecycle Session.LifeSpec Session.LifeKF.
+From MV Require Import Base.Val Session.Lifecycle Session.LifeSpec Session.LifeKF Session.LifeBase Session.LifeInv
+  Session.LifeProofs13 Session.LifeProofs15 Findings.FixedC15.
 Open Scope N_scope.
 
-Definition caps10 : caps := {| k_maxsei := 10; k_minver := 3; k_maxqos := 2; k_retain := true |}.
-Definition cp5 (id : bytes) (clean : bool) (sei : option N) : cparams :=
-  {| cp_pname := name_MQTT; cp_ver := 5; cp_reserved := false; cp_clean := clean; cp_willflag := false; cp_willqos := 0;
-     cp_willretain := false; cp_willtopic := []; cp_willpayload := []; cp_willdelay := 0; cp_userflag := false; cp_user := [];
-     cp_passflag := false; cp_pass := []; cp_keepalive := 60; cp_id := id;
-     cp_seiflag := match sei with Some _ => true | None => false end; cp_sei := match sei with Some v => v | None => 0 end;
-     cp_trunc := false; cp_willtopic_ok := true |}.
-Definition mk (t pl : bytes) (q : N) : msg := {| m_topic := t; m_payload := pl; m_qos := q; m_retain := false |}.
+Definition model_obs (k : caps) (ops : list op) : list obs := map obs_of (trace k init ops).
+
+(* Nothing of a discarded session survives in the topic index: after every history of operations
+   (connects, takeovers, disconnects, expiry ticks at arbitrary times, ...) every entry of the topic
+   index belongs to a session that is registered and holds that subscription; in particular an
+   identifier without a session has no entry, so a later connection with that identifier cannot
+   receive anything because of an old subscription.  This is the clause the pre-fix code violated
+   (Findings/FixedC15.v).
+   PARTIAL: the behavioural clause of the monitor (V15_unjustified: every delivery to a connection is
+   justified by a subscription of its current session) is checked on every run against the real
+   broker but not yet proved for the model. *)
+Theorem C15_nothing_left_partial : forall (k : caps) (ops : list op),
+  Forall (fun v => v_tag v <> V15_stale_index) (mon15 k (model_obs k ops)).
+Proof. exact mon15_no_stale_index. Qed.
+
+Theorem C15_index_belongs_to_sessions : forall (k : caps) (ops : list op),
+  ixinv (fold_left (fun s o => fst (step k s o)) ops init).
+Proof. exact index_belongs_to_sessions. Qed.
+
+(* the monitor rejects what the broker did before the two repairs, and accepts the repaired model *)
+Theorem C15_prefix_expiry_refuted :
+  map v_tag (mon15 caps10 (map obs_of (trace_prefix caps10 init hist_c15_1)))
+    = [V15_stale_index; V15_stale_index; V15_stale_index; V15_unjustified] /\
+  mon15 caps10 (map obs_of (trace caps10 init hist_c15_1)) = [].
+Proof. destruct prefix_expiry_leaves_subscriptions as (A & _ & B & _). split; assumption. Qed.
+
+Theorem C15_prefix_disconnect_cap_refuted :
+  map v_tag (mon15 caps10 (map obs_of (trace_prefix caps10 init hist_c15_2))) = [V15_late] /\
+  mon15 caps10 (map obs_of (trace caps10 init hist_c15_2)) = [].
+Proof. exact prefix_disconnect_expiry_uncapped. Qed.
 
 (* non-vacuity: a session with expiry 5 subscribes, disconnects at 1000, survives the tick at 1005, is
-   discarded by the tick at 1006, and the next connection with its identifier receives nothing *)
+   discarded by the tick at 1006, and the next connection with its identifier receives nothing; a
+   DISCONNECT cannot raise a zero expiry (protocol error, the session ends) *)
 Definition hist1 : list op :=
   [OConnect 0 1000 (cp5 [111] true None) true [111]; OConnect 1 1000 (cp5 [97] false (Some 5)) true [97];
    OSubscribe 1 [116] 1; OPublish 0 (mk [116] [49] 1); ODisconnect 1 1000 0 None; OPublish 0 (mk [116] [50] 1);
-   OTickClients 1005; OTickClients 1006; OConnect 2 1000 (cp5 [97] false (Some 5)) true [97]; OPublish 0 (mk [116] [51] 1)].
+   OTickClients 1005; OTickClients 1006; OConnect 2 1000 (cp5 [97] false (Some 0)) true [97]; OPublish 0 (mk [116] [51] 1);
+   ODisconnect 2 1000 0 (Some 7)].
 
 Example C15_nonvacuous :
-  mon15 caps10 (map obs_of (trace caps10 init hist1)) = [] /\
+  mon15 caps10 (model_obs caps10 hist1) = [] /\
   map (fun t => has_client [97] (sn_clients (snap_of (t_post t)))) (trace caps10 init hist1)
-  = [false; true; true; true; true; true; true; false; true; true] /\
-  flat_map (fun t => pkts_to 2 (t_outs t)) (trace caps10 init hist1) = [PConnack 0 false].
+  = [false; true; true; true; true; true; true; false; true; true; false] /\
+  flat_map (fun t => pkts_to 2 (t_outs t)) (trace caps10 init hist1) = [PConnack 0 false; PDisconnect 130].
 Proof. vm_compute. repeat split. Qed.
+
+Print Assumptions C15_nothing_left_partial.
+Print Assumptions C15_index_belongs_to_sessions.
+Print Assumptions C15_prefix_expiry_refuted.
+Print Assumptions C15_prefix_disconnect_cap_refuted.
